@@ -1,4 +1,5 @@
 import Qentem.Proofs.ExprEval
+import Qentem.Proofs.ExprScanWf
 import Qentem.Generated.Expr
 /-!
 # C04 — expression evaluation equals exact arithmetic with the documented precedence
@@ -13,6 +14,8 @@ Theorems (all kernel-checked, `R` = any real carrier, in particular `Rat` = exac
 * `no_trap`, `no_value_iff`     no operation faults; "no value" exactly for the listed causes.
 * `cmp_logic_01`, `truth_is_positive`
 * `equality_rule_*`
+* `scan_wf`, `scan_then_evaluate`  the scanner returns a well-formed list (or nothing), so the main
+                                theorem applies to every expression text inside a tag.
 * `ScanPrint` (statement, open) scanner ∘ printer = flatten; exercised by the correspondence
                                 streams, not proved.
 -/
@@ -283,7 +286,7 @@ end
 `Num.ival` reads an integer-kind operand as the integer it denotes (`Natural` below 2^63 so that
 the signed reading of the union agrees, `Integer` by two's complement).  Real-kind operations are
 the field operations of the carrier by definition (`Num.add … = .real (l.toReal + r.toReal)`), so
-at `R := Rat` they are exact arithmetic.  Subtraction, multiplication and `^` are not
+at `R := Rat` they are exact arithmetic.  Multiplication with an Integer-kind factor and `^` are not
 covered here (`arith_exact_partial`); the Python `Fraction` oracle of `checks/c04.py` covers them
 on the real code. -/
 
@@ -300,6 +303,94 @@ theorem add_exact (l r : Num R) (a b : Int) (hl : Num.ival l = some a) (hr : Num
     Num.ival (Num.add l r) = some (a + b) := by
   cases l <;> cases r <;> simp only [Num.ival, Num.add, wrap, toInt, W64, H64] at * <;>
     (repeat' split at hl) <;> (repeat' split at hr) <;> simp_all <;> (try split) <;> omega
+
+theorem toInt_wrap_sub (x y : Nat) (hx : x < W64) (hy : y < W64)
+    (hlo : -(H64 : Int) ≤ toInt x - toInt y) (hhi : toInt x - toInt y < (H64 : Int)) :
+    wrap (x + W64 - wrap y) < W64 ∧ toInt (wrap (x + W64 - wrap y)) = toInt x - toInt y := by
+  have hyw : wrap y = y := Nat.mod_eq_of_lt hy
+  rw [hyw]
+  by_cases hxy : y ≤ x
+  · have hz : wrap (x + W64 - y) = x - y := by
+      unfold wrap; simp only [W64] at *; omega
+    rw [hz]
+    refine ⟨by simp only [W64] at *; omega, ?_⟩
+    unfold toInt at *
+    simp only [W64, H64] at *
+    split at hlo <;> split at hlo <;> split <;> omega
+  · have hz : wrap (x + W64 - y) = x + W64 - y := by
+      unfold wrap; simp only [W64] at *; omega
+    rw [hz]
+    refine ⟨by simp only [W64] at *; omega, ?_⟩
+    unfold toInt at *
+    simp only [W64, H64] at *
+    split at hlo <;> split at hlo <;> split <;> omega
+
+theorem sub_exact (l r : Num R) (a b : Int) (hl : Num.ival l = some a) (hr : Num.ival r = some b)
+    (hlo : -(H64 : Int) ≤ a - b) (hhi : a - b < (H64 : Int)) :
+    Num.ival (Num.sub l r) = some (a - b) := by
+  have keyN : ∀ (x : Nat) (v : Int), Num.ival (Num.nat x : Num R) = some v → x < H64 ∧ toInt x = v := by
+    intro x v h
+    simp only [Num.ival] at h
+    split at h
+    · rename_i hx; simp at h; subst h; exact ⟨hx, by simp [toInt, hx]⟩
+    · simp at h
+  have keyI : ∀ (x : Nat) (v : Int), Num.ival (Num.int x : Num R) = some v → x < W64 ∧ toInt x = v := by
+    intro x v h
+    simp only [Num.ival] at h
+    split at h
+    · rename_i hx; simp at h; exact ⟨hx, h⟩
+    · simp at h
+  have mk : ∀ (z : Nat), z < W64 → Num.ival (Num.int z : Num R) = some (toInt z) := by
+    intro z hz; simp [Num.ival, hz]
+  cases l with
+  | real x => simp [Num.ival] at hl
+  | nat x =>
+    obtain ⟨hx, hxa⟩ := keyN x a hl
+    cases r with
+    | real y => simp [Num.ival] at hr
+    | nat y =>
+      obtain ⟨hy, hyb⟩ := keyN y b hr
+      subst hxa hyb
+      obtain ⟨h1, h2⟩ := toInt_wrap_sub x y (by simp only [W64, H64] at *; omega) (by simp only [W64, H64] at *; omega) hlo hhi
+      simp only [Num.sub]
+      split
+      · rw [mk _ h1, h2]
+      · rename_i hge
+        -- x ≥ y: the result is a Natural below 2^63
+        have hyw : wrap y = y := Nat.mod_eq_of_lt (by simp only [W64, H64] at *; omega)
+        have hz : wrap (x + W64 - wrap y) = x - y := by
+          rw [hyw]; unfold wrap; simp only [W64, H64] at *; omega
+        rw [hz]
+        have : x - y < H64 := by simp only [H64] at *; omega
+        simp only [Num.ival, this, if_true]
+        simp only [toInt, hx, hy, if_true]
+        congr 1; omega
+    | int y =>
+      obtain ⟨hy, hyb⟩ := keyI y b hr
+      subst hxa hyb
+      obtain ⟨h1, h2⟩ := toInt_wrap_sub x y (by simp only [W64, H64] at *; omega) hy hlo hhi
+      simp only [Num.sub]; rw [mk _ h1, h2]
+  | int x =>
+    obtain ⟨hx, hxa⟩ := keyI x a hl
+    cases r with
+    | real y => simp [Num.ival] at hr
+    | nat y =>
+      obtain ⟨hy, hyb⟩ := keyN y b hr
+      subst hxa hyb
+      obtain ⟨h1, h2⟩ := toInt_wrap_sub x y hx (by simp only [W64, H64] at *; omega) hlo hhi
+      simp only [Num.sub]; rw [mk _ h1, h2]
+    | int y =>
+      obtain ⟨hy, hyb⟩ := keyI y b hr
+      subst hxa hyb
+      obtain ⟨h1, h2⟩ := toInt_wrap_sub x y hx hy hlo hhi
+      simp only [Num.sub]; rw [mk _ h1, h2]
+
+/-- product of two Naturals below 2^63 -/
+theorem mul_exact_nat (x y : Nat) (h : x * y < H64) :
+    Num.ival (Num.mul (Num.nat x : Num R) (Num.nat y)) = some ((x : Int) * (y : Int)) := by
+  have hw : wrap (x * y) = x * y := Nat.mod_eq_of_lt (by simp only [W64, H64] at *; omega)
+  simp only [Num.mul, hw, Num.ival, h, if_true]
+  simp
 
 theorem cmp_exact (l r : Num R) (a b : Int) (hl : Num.ival l = some a) (hr : Num.ival r = some b) :
     Num.lt' l r = decide (a < b) ∧ Num.le' l r = decide (a ≤ b) ∧ Num.gt' l r = decide (b < a) ∧
@@ -325,6 +416,26 @@ theorem cmp_exact (l r : Num R) (a b : Int) (hl : Num.ival l = some a) (hr : Num
     simp [Num.lt', Num.le', Num.gt', Num.ge', Num.eq', Num.cmp, hl2, hr2]
 
 end
+
+/-! ### From text to value: the scanner's output satisfies the hypothesis of the main theorem -/
+
+/-- `scan_wf`: inside a tag (`endO < length`) the scanner performs no out-of-range read and returns
+either nothing or a well-formed flat list (with the `last_oper == NoOp` test of 72d4ed6). -/
+theorem scan_wf {R : Type} (cfg : ScanCfg R) (c : List Nat) (off endO : Nat) (he : endO < c.length) :
+    Safe (parseTop cfg c off endO) (fun items => items = [] ∨ wfItems items = true) :=
+  parseTop_wf cfg c off endO he
+
+/-- End to end for every expression text inside a tag: whatever the scanner returns is evaluated by
+the flat-list recursion to the value of its precedence tree. -/
+theorem scan_then_evaluate {R : Type} [RealLike R] (cfg : ScanCfg R) (env : Env R) (c : List Nat)
+    (off endO : Nat) (he : endO < c.length) :
+    Safe (parseTop cfg c off endO)
+      (fun items => items = [] ∨ evaluateTop env true items = evalTop env (climb items)) := by
+  apply Safe.mono (parseTop_wf cfg c off endO he)
+  intro items h
+  rcases h with h | h
+  · exact Or.inl h
+  · exact Or.inr (evaluate_eq_tree env items h)
 
 /-! ### Scanner: statement only (S) -/
 
